@@ -134,6 +134,7 @@ MALFORMED = [
     "x", "-", "+", ".", "1e", "e1", "(1 2)", "1 2 (", ":1", "1:2", "1;2",
     "lin(abc)", "lin(4 ; 0 1)", "lin(-3 : 0 1)", "lin(e)", "lin(4 5)", "lin(4x)", "lin( x )", "lin(+)", "lin(4\t: 0 1)", "\tlin(;)",
     "fac(3x)", "fac(x)", "fac(3 ; 2)", "fac(-1)", "fac(3:0::1)", "fac(3:-1::2)", "fac(3:1e-320::2)", "FAC( 7 )x", "lin(0)", "lin(0 : 2 3)",
+    "lin(2:0 1)junk", "lin(2:0 1) 3", "fac(3) 4", "fac(3:2:1:0)x", "range(0 1)x", "range(0 1 : 0.5) :", "lin(2:0 1) \t ", "lin(2)\n",
     "range(1 0)", "range(1 0 : 0.5)", "range(2 2 : 1)", "range(0 1 : -1)", "range(3 -3)",
 ]
 
@@ -144,6 +145,9 @@ PROFILES = [
     (3, "poly 1 2 : "), (3, "poly 1 2 : x"), (3, "poly x"), (3, "POLY 2"), (3, "poly 1 1 1 1 1 1 1 1"),
     (3, ""), (3, " "), (3, None), (3, "other 1 2"), (2, "poly 1 2 3:1 2 3 4"), (7, "poly 1 -3 3 -1"),
     (5, "poly " + " ".join(["1"] * 130)), (4, "poly 1 0 : 0.5"),
+    (3, "lin 0 1 junk"), (3, "lin 0 1 2"), (3, "bound 1 2 3 4"), (3, "bound 1 2 3 x"), (4, "poly 1 2 x"), (4, "poly 1 2 : 1 x"),
+    (4, "poly 1 2 : 1 2"), (4, "poly 1 2 :"), (4, "poly 1 2 : "), (4, "poly 1 2 3 : 1 : 2"), (5, "lin 0 1 \t"), (4, "poly 1 0 \n"),
+    (5, "poly " + " ".join(["1"] * 128)), (5, "poly " + " ".join(["1"] * 129)),
 ]
 
 
